@@ -515,6 +515,22 @@ func (c *Ctx) checkSalt(dg digest, gf *ssa.Function, goArgs []ssa.Value, sfn *so
 			}
 		}
 	}
+	if goSalt == "" {
+		// the padding may live in a helper: the salt is then the single string constant the array value derives from
+		l := p.Leaves(v, ana.PVOpt{})
+		n := 0
+		for lab := range l.Leaves {
+			if strings.HasPrefix(lab, `const:"`) {
+				goSalt = strings.Trim(strings.TrimPrefix(lab, "const:"), `"`)
+				n++
+			} else if !strings.HasPrefix(lab, "const:") {
+				n += 2
+			}
+		}
+		if n != 1 {
+			goSalt = ""
+		}
+	}
 	// contract literal: directly or through a local initialiser
 	lit := sol.Text(solArgs[1])
 	if !strings.HasPrefix(lit, "0x") {
